@@ -304,3 +304,96 @@ pub fn is_value_dependent_fault(err: &RuntimeError) -> bool {
             | RuntimeError::ExecutionTimeout
     )
 }
+
+// ---------------------------------------------------------------------------
+// type-tag walk (C03 oracle; C01 uses it to attribute follow-up faults)
+
+pub fn tag_name(v: &Value) -> &'static str {
+    match v {
+        Value::Bool(_) => "BOOL",
+        Value::SInt(_) => "SINT",
+        Value::Int(_) => "INT",
+        Value::DInt(_) => "DINT",
+        Value::LInt(_) => "LINT",
+        Value::USInt(_) => "USINT",
+        Value::UInt(_) => "UINT",
+        Value::UDInt(_) => "UDINT",
+        Value::ULInt(_) => "ULINT",
+        Value::Real(_) => "REAL",
+        Value::LReal(_) => "LREAL",
+        Value::Byte(_) => "BYTE",
+        Value::Word(_) => "WORD",
+        Value::DWord(_) => "DWORD",
+        Value::LWord(_) => "LWORD",
+        Value::Time(_) => "TIME",
+        Value::LTime(_) => "LTIME",
+        Value::Date(_) => "DATE",
+        Value::LDate(_) => "LDATE",
+        Value::Tod(_) => "TOD",
+        Value::LTod(_) => "LTOD",
+        Value::Dt(_) => "DT",
+        Value::Ldt(_) => "LDT",
+        Value::String(_) => "STRING",
+        Value::WString(_) => "WSTRING",
+        Value::Char(_) => "CHAR",
+        Value::WChar(_) => "WCHAR",
+        Value::Array(_) => "ARRAY",
+        Value::Struct(_) => "STRUCT",
+        Value::Enum(_) => "ENUM",
+        Value::Reference(_) => "REF",
+        Value::Instance(_) => "INSTANCE",
+        Value::Null => "NULL",
+    }
+}
+
+/// (path, tag) of every scalar slot reachable from the globals, in a deterministic order
+pub fn tag_walk(rt: &Runtime) -> Vec<(String, &'static str)> {
+    let mut out = Vec::new();
+    for (name, value) in rt.storage().globals() {
+        tag_value(rt, name.as_str(), value, &mut out, 0);
+    }
+    out
+}
+
+fn tag_value(rt: &Runtime, path: &str, value: &Value, out: &mut Vec<(String, &'static str)>, depth: usize) {
+    if depth > 8 {
+        return;
+    }
+    match value {
+        Value::Instance(id) => {
+            if let Some(inst) = rt.storage().get_instance(*id) {
+                let mut names: Vec<_> = inst.variables.iter().collect();
+                names.sort_by(|a, b| a.0.cmp(b.0));
+                for (n, v) in names {
+                    tag_value(rt, &format!("{path}.{n}"), v, out, depth + 1);
+                }
+            }
+        }
+        Value::Array(a) => {
+            for (i, e) in a.elements.iter().enumerate() {
+                tag_value(rt, &format!("{path}[{i}]"), e, out, depth + 1);
+            }
+        }
+        Value::Struct(s) => {
+            for (k, v) in s.fields.iter() {
+                tag_value(rt, &format!("{path}.{k}"), v, out, depth + 1);
+            }
+        }
+        other => out.push((path.to_string(), tag_name(other))),
+    }
+}
+
+/// slots whose tag differs from the reference walk: (path, expected tag, actual tag)
+pub fn tag_drift(rt: &Runtime, reference: &[(String, &'static str)]) -> Vec<(String, &'static str, &'static str)> {
+    let now = tag_walk(rt);
+    let mut out = vec![];
+    let map: std::collections::BTreeMap<&str, &'static str> = reference.iter().map(|(p, t)| (p.as_str(), *t)).collect();
+    for (p, t) in &now {
+        if let Some(want) = map.get(p.as_str()) {
+            if want != t {
+                out.push((p.clone(), *want, *t));
+            }
+        }
+    }
+    out
+}
